@@ -1704,6 +1704,13 @@ class Machine:
         invalid = rng.chance(0.6)
         good = draw_dict_items(rng, which, 2)
         gk = [[k, build(v)] for k, v in good]
+        if which == 'visual' and rng.chance(0.25):
+            # the documented aliases are valid keys: stored (and read back)
+            # under their canonical name
+            alias = rng.pick([['width', 3], ['point', 'x'], ['width', 1.5],
+                              ['point', '+']])
+            if VISUAL_KEYMAP[alias[0]] not in [k for k, _ in gk]:
+                gk.append(alias)
         badk = bad_key(rng, which)
         Other = RegionVisual if which == 'meta' else RegionMeta
         entry = rng.pick(['setitem', 'update_map', 'update_pairs',
